@@ -2,6 +2,7 @@ package j5schema
 
 import (
 	"fmt"
+	"sync"
 
 	"github.com/pentops/j5/gen/j5/ext/v1/ext_j5pb"
 	"google.golang.org/protobuf/proto"
@@ -10,6 +11,10 @@ import (
 
 // SchemaCache acts like PackageSet, but builds schemas on demand from reflection.
 type SchemaCache struct {
+	// mu guards packages and the Schemas map of every package in it for the
+	// whole of a Schema call, so that concurrent callers never observe a
+	// placeholder ref which has not yet been linked.
+	mu       sync.Mutex
 	packages map[string]*Package
 }
 
@@ -23,6 +28,8 @@ func NewSchemaCache() *SchemaCache {
 func (sc *SchemaCache) Schema(src protoreflect.MessageDescriptor) (RootSchema, error) {
 	packageName, nameInPackage := splitDescriptorName(src)
 	verifAt("enter", packageName+"."+nameInPackage)
+	sc.mu.Lock()
+	defer sc.mu.Unlock()
 	schemaPackage := sc.referencePackage(packageName)
 	verifAt("lookup", packageName+"."+nameInPackage)
 	if built, ok := schemaPackage.Schemas[nameInPackage]; ok {
